@@ -425,10 +425,12 @@ def decorate(rng, spec, info, *, rich=True):
             for r in spec["df"]["rows"]:
                 if r[j] == x:
                     r[j] = None
-        elif r0 < 0.2:
+        elif r0 < 0.34:
+            # numeric keys (ints, or floats for a part of them): headings show str(value)
             code = {}
+            off = 0.5 if r0 > 0.28 else 0
             for v in vals:
-                code.setdefault(v, len(code) + 1)
+                code.setdefault(v, len(code) + 1 + off)
             for r in spec["df"]["rows"]:
                 r[j] = code[r[j]] if r[j] != "-----" or "-----" not in code else r[j]
     # a boolean data column
@@ -638,6 +640,12 @@ def run(res, tier):
             res.corr_checked += 1
         elif o["verdict"] in ("near", "construct-error"):
             pass
+        elif o["verdict"] == "real-error":
+            # the model (which reproduces every refusal of the unchanged encoder) returns a document and the encoder
+            # raises on a configuration accepted at construction: C01's first clause fails on this very input
+            res.corr_checked += 1
+            res.fail(case, f"rtf_encode() raises {o['exc']}: {o['msg'][:300]} — an accepted configuration must encode "
+                           f"({st}; the encoder model returns a document for it)")
         else:
             res.corr_checked += 1
             res.disagree(case, f"encoder model vs rtf_encode() ({st}): {o['why']}")
